@@ -23,7 +23,7 @@ TABLE = {
                 quick=[dict(n=8, blocks=20, maxtx=7), dict(n=3, blocks=15, boundary=True)],
                 thorough=[dict(n=50, blocks=40, maxtx=8), dict(n=40, blocks=40, maxtx=8, seed_off=11), dict(n=30, blocks=30, boundary=True)],
                 need=[("transfer", False), ("staking", False), ("unstaking", False), ("withdraw", False), ("proposal", False), ("voting", False)]),
-    "C10": dict(directed=["self_below_min", "validator_churn", "twin_jail", "forced_unbond", "slash_then_unstake", "recreate_in_block", "early_unbond"],
+    "C10": dict(directed=["valcount_change", "self_below_min", "validator_churn", "twin_jail", "forced_unbond", "slash_then_unstake", "recreate_in_block", "early_unbond"],
                 quick=[dict(n=8, blocks=30)],
                 thorough=[dict(n=60, blocks=50), dict(n=60, blocks=50, seed_off=13)],
                 need=[("staking", True), ("unstaking", True), ("absent", True)]),
